@@ -87,6 +87,14 @@ def one_prop(prop):
                 out[d.name] = {"status": "stale", "why": ap.stderr.strip()[:200]}
                 print(f"{prop}/{d.name}: stale (patch no longer applies)", flush=True)
                 continue
+            # does the change still do what its demonstration shows?  (a later fix: can leave a patch applicable but without effect)
+            if (d / "demo.py").exists():
+                dm = subprocess.run(["/venv/bin/python", str(d / "demo.py")], cwd=wt, capture_output=True, text=True,
+                                    env={**os.environ, "PYTHONPATH": str(wt)}, timeout=900)
+                if dm.returncode == 0:
+                    out[d.name] = {"status": "neutralised", "why": "demo.py passes with the patch applied to /repo HEAD (a later fix: removed its effect): re-express or retire it"}
+                    print(f"{prop}/{d.name}: neutralised (its demo passes with the patch on HEAD)", flush=True)
+                    continue
             rc, lines = run_check(prop, wt, prop, vc)
             viol = [l for l in lines if l.startswith(f"VIOLATION property={prop}")]
             with_input = [l for l in viol if not l.rstrip().endswith("no-failing-input-found")]
@@ -109,5 +117,7 @@ path.write_text(json.dumps(old, indent=1, sort_keys=True) + "\n")
 missed = [f"{p}/{k}" for p, r in res.items() for k, v in r.items() if k != "clean" and v.get("status") == "MISSED"]
 dirty = [p for p, r in res.items() if r.get("clean", {}).get("exit") != 0]
 stale = [f"{p}/{k}" for p, r in res.items() for k, v in r.items() if k != "clean" and v.get("status") == "stale"]
-print("MISSED:", missed or "none", "| clean-tree failures:", dirty or "none", "| STALE (patch no longer applies, re-base it):", stale or "none")
-sys.exit(1 if missed or dirty or stale else 0)
+neutral = [f"{p}/{k}" for p, r in res.items() for k, v in r.items() if k != "clean" and v.get("status") == "neutralised"]
+print("MISSED:", missed or "none", "| clean-tree failures:", dirty or "none", "| STALE (patch no longer applies, re-base it):", stale or "none",
+      "| NEUTRALISED (demo passes with the patch):", neutral or "none")
+sys.exit(1 if missed or dirty or stale or neutral else 0)
